@@ -443,6 +443,9 @@ type c11LL struct {
 	CanSkip bool   `json:"can_skip"` // the first playlist advertises CAN-SKIP-UNTIL
 	End     string `json:"end"`      // "no-hint": the playlist after the last round has no hint; "404": it is missing
 	Query   bool   `json:"query"`    // the playlist URL already carries a query string
+	// Ranges: the hinted parts are byte ranges of one resource (BYTERANGE-START / BYTERANGE-LENGTH; the start is left out
+	// when it is 0, as the library's own encoder does); "gap": with 7 unrelated bytes between consecutive parts
+	Ranges string `json:"ranges,omitempty"`
 }
 
 func c11LLRun(c *vh.Ctx, cs c11LL) (sig, msg, outcome string) {
@@ -451,6 +454,15 @@ func c11LLRun(c *vh.Ctx, cs c11LL) (sig, msg, outcome string) {
 		return "engine", err.Error(), ""
 	}
 	polls := 0
+	partRange := func(k int) (off, ln int) {
+		for i := 0; i < k; i++ {
+			off += len(st.rends[0].segs[i].Body)
+			if cs.Ranges == "gap" {
+				off += 7
+			}
+		}
+		return off, len(st.rends[0].segs[k].Body)
+	}
 	srv := &stubServer{}
 	srv.handler = func(n int, path, rawQuery string, req *http.Request) srvResp {
 		name := path[strings.LastIndexByte(path, '/')+1:]
@@ -468,10 +480,27 @@ func c11LLRun(c *vh.Ctx, cs c11LL) (sig, msg, outcome string) {
 			}
 			fmt.Fprintf(&b, "#EXTM3U\n#EXT-X-VERSION:9\n#EXT-X-TARGETDURATION:1\n#EXT-X-SERVER-CONTROL:%s\n#EXT-X-PART-INF:PART-TARGET=1.00000\n#EXT-X-MEDIA-SEQUENCE:%d\n#EXT-X-MAP:URI=\"r0_init\"\n", sc, k)
 			fmt.Fprintf(&b, "#EXT-X-PROGRAM-DATE-TIME:2022-03-04T05:06:07.250Z\n#EXTINF:1.00000,\nseg%d.mp4\n", k)
-			if k < cs.Rounds {
+			if k < cs.Rounds && cs.Ranges == "" {
 				fmt.Fprintf(&b, "#EXT-X-PRELOAD-HINT:TYPE=PART,URI=\"part%d.mp4\"\n", k)
+			} else if k < cs.Rounds {
+				off, ln := partRange(k)
+				if off == 0 {
+					fmt.Fprintf(&b, "#EXT-X-PRELOAD-HINT:TYPE=PART,URI=\"parts.mp4\",BYTERANGE-LENGTH=%d\n", ln)
+				} else {
+					fmt.Fprintf(&b, "#EXT-X-PRELOAD-HINT:TYPE=PART,URI=\"parts.mp4\",BYTERANGE-START=%d,BYTERANGE-LENGTH=%d\n", off, ln)
+				}
 			}
 			return srvResp{Status: 200, Body: []byte(b.String())}
+		case name == "parts.mp4":
+			var all []byte
+			for k := 0; k < cs.Rounds && k < len(st.rends[0].segs); k++ {
+				off, _ := partRange(k)
+				for len(all) < off {
+					all = append(all, 0xEE)
+				}
+				all = append(all, st.rends[0].segs[k].Body...)
+			}
+			return srvResp{Status: 200, Body: all}
 		case name == "r0_init":
 			return srvResp{Status: 200, Body: st.rends[0].init}
 		case strings.HasPrefix(name, "part"):
@@ -501,7 +530,12 @@ func c11LLRun(c *vh.Ctx, cs c11LL) (sig, msg, outcome string) {
 		}
 	}
 	for k := 0; k < cs.Rounds; k++ {
-		want = append(want, fmt.Sprintf("%spart%d.mp4", base, k), poll)
+		if cs.Ranges == "" {
+			want = append(want, fmt.Sprintf("%spart%d.mp4", base, k), poll)
+		} else {
+			off, ln := partRange(k)
+			want = append(want, fmt.Sprintf("%sparts.mp4 [bytes=%d-%d]", base, off, off+ln-1), poll)
+		}
 	}
 	wantEnd := "hint-disappeared"
 	if cs.End == "404" {
@@ -509,13 +543,17 @@ func c11LLRun(c *vh.Ctx, cs c11LL) (sig, msg, outcome string) {
 	}
 	var got []string
 	for _, r := range obs.Reqs {
-		got = append(got, r.URL)
+		if r.Range != "" {
+			got = append(got, r.URL+" ["+r.Range+"]")
+		} else {
+			got = append(got, r.URL)
+		}
 	}
 	end := c11Class(obs.WaitErr)
 	if obs.WaitErr != nil && strings.Contains(obs.WaitErr.Error(), "preload hint disappeared") {
 		end = "hint-disappeared"
 	}
-	outcome = fmt.Sprintf("ll rounds=%d skip=%v end=%s reqs=%d", cs.Rounds, cs.CanSkip, end, len(got))
+	outcome = fmt.Sprintf("ll rounds=%d skip=%v ranges=%s end=%s reqs=%d", cs.Rounds, cs.CanSkip, cs.Ranges, end, len(got))
 	where := fmt.Sprintf("\ncase: %+v\n got  %s\n want %s", cs, strings.Join(got, "\n      "), strings.Join(want, "\n      "))
 	if len(obs.Panics) > 0 {
 		return "client-panic", obs.Panics[0] + where, outcome
@@ -528,7 +566,7 @@ func c11LLRun(c *vh.Ctx, cs c11LL) (sig, msg, outcome string) {
 	}
 	for i := range got {
 		if got[i] != want[i] {
-			return "ll-wrong-request", fmt.Sprintf("request %d is %q, the model expects %q (one preload-hint GET per playlist, _HLS_skip=YES exactly when CAN-SKIP-UNTIL was advertised)", i, got[i], want[i]) + where, outcome
+			return "ll-wrong-request", fmt.Sprintf("request %d is %q, the model expects %q (one preload-hint GET per playlist, of exactly the hinted byte range, _HLS_skip=YES exactly when CAN-SKIP-UNTIL was advertised)", i, got[i], want[i]) + where, outcome
 		}
 	}
 	if end != wantEnd {
@@ -543,7 +581,9 @@ func c11LLCases() []c11LL {
 		for _, skip := range []bool{false, true} {
 			for _, end := range []string{"no-hint", "404"} {
 				for _, q := range []bool{false, true} {
-					out = append(out, c11LL{Rounds: rounds, CanSkip: skip, End: end, Query: q})
+					for _, rg := range []string{"", "contiguous", "gap"} {
+						out = append(out, c11LL{Rounds: rounds, CanSkip: skip, End: end, Query: q, Ranges: rg})
+					}
 				}
 			}
 		}
